@@ -126,6 +126,9 @@ def full_alphabet(st=None, hist=None, *, with_alias=True):
         ["rename", [[col(T, "g"), "x"], [col(T, "x"), "g"]]],
         ["filter", [["eq", Cn("n"), lit(1)]]],  # on an aggregate column (if there is one)
         ["mutate", [["w2", ["add", Cn("m"), lit(1)]]]],  # reads a window column
+        # two window functions that take their order from the table (no arrange=)
+        ["mutate", [["l1", ["shift", col(T, "x"), 1, None]], ["l2", ["row_number"]]]],
+        ["select", [Cn("g"), Cn("x")]],  # hides k (e.g. the column the table is ordered by)
     ]
     if not with_alias:
         ev = [e for e in ev if e[0] != "alias"]
